@@ -546,7 +546,8 @@ def bld_pred(which):
         rr_prev = None
         faulted = False
         blocked = False       # ops B / b: the services answer Pending to their readiness checks (back-pressure)
-        armed_call = None     # ops X / x: the service of this builder call fails its next readiness check
+        armed_call = None     # ops X / Y / x: the service of this builder call fails its next readiness check(s)
+        armed_n = 1
         rot = []              # workers of the most recent connections dispatched one at a time with no worker at its limit
         for k, (op, served, act, notes) in enumerate(steps):
             if notes:
@@ -570,11 +571,12 @@ def bld_pred(which):
                 if op[0] == "J":
                     cid += 1
                     tok_of[cid] = int(op[1:].split(":")[1])
-            elif op[0] in "cEAX":
+            elif op[0] in "cEAXY":
                 cid += 1
                 tok_of[cid] = int(op[1:])
-                if op[0] == "X":
+                if op[0] in "XY":
                     armed_call = tok_call[int(op[1:])]
+                    armed_n = 2 if op[0] == "Y" else 1
                 if op[0] == "A":
                     finished.add(cid)      # an abortive client: its service call ends by itself
                 if op[0] == "E":
@@ -594,6 +596,7 @@ def bld_pred(which):
                 backoff = False
             elif op[0] == "x":
                 armed_call = tok_call[int(op[1:])]
+                armed_n = 1
             elif op == "B":
                 blocked = True
             elif op == "b":
@@ -636,11 +639,11 @@ def bld_pred(which):
             info = getattr(notes, "info", None)
             if "C07" in which and op and op[0] not in "KJ" and not faulted and not model:
                 new = (info or {}).get("new", {})
-                if armed_call is not None and (op[0] == "X" or (op == "b")):
-                    if new != {armed_call: 1}:
-                        return "step %d (%s): the service of builder call %d failed its readiness check; instances created: %s (expected exactly one of that call)" % (
-                            k, op, armed_call, new or "none")
-                    if op[0] == "X" and (info or {}).get("by", {}).get(cid) != 1:
+                if armed_call is not None and (op[0] in "XY" or (op == "b")):
+                    if new != {armed_call: armed_n}:
+                        return "step %d (%s): the service of builder call %d failed %d readiness check(s); instances created: %s (expected exactly %d of that call)" % (
+                            k, op, armed_call, armed_n, new or "none", armed_n)
+                    if op[0] in "XY" and (info or {}).get("by", {}).get(cid) != 1:
                         return "step %d (%s): connection %d was not served by the re-created service instance (%s)" % (k, op, cid, (info or {}).get("by"))
                     armed_call = None
                 elif new:
@@ -677,7 +680,7 @@ def bld_probe(case, impl_trace, model_trace):
         return []
     served, closed, paused, cid = set(), set(), False, 0
     for o in ops:
-        if o[0] in "cEA":
+        if o[0] in "cEAXY":
             cid += 1
             if o[0] == "A":
                 closed.add(cid)
